@@ -360,28 +360,26 @@ theorem free_startLang_nodup {gs : List Gen} (h : FreeOK gs) (hs : SingleChar (f
     exact hij (h1.1.symm.trans h2.1)
 
 /-- **`freely_reduced_elements(length, maxlen, with_words=True)`** returns each freely reduced
-word of length `= length` (`≤ length` with `maxlen`) exactly once, and — on a `parse_simple`
-representation — the matrices are, position by position, the images of these words. -/
+word of length `= length` (`≤ length` with `maxlen`) exactly once (on a `parse_simple`
+representation: the words of a `parse_simple=False` one are `"*"`-joined), and the matrices are, position by position, the images of these words. -/
 theorem freelyReducedElements_spec (ρ : Rep n R) (L : Nat) (maxlen : Bool) (res : AccRes n R)
-    (h : ρ.freelyReducedElements L maxlen true = .ok res)
+    (hp : ρ.parseSimple = true) (h : ρ.freelyReducedElements L maxlen true = .ok res)
     (hok : FreeOK ρ.asymGens) (hs : SingleChar (freeGens ρ.asymGens)) :
     res.words.Nodup ∧
     (∀ s, s ∈ res.words ↔
       (if maxlen then s.length ≤ L else s.length = L) ∧ IsReducedWord ρ.asymGens s) ∧
-    (ρ.parseSimple = true →
-      List.Forall₂ (fun s M => ρ.value (parseWord true s) = .ok (DMat.toMatrix M))
-        res.words res.mats) := by
+    List.Forall₂ (fun s M => ρ.value (parseWord true s) = .ok (DMat.toMatrix M))
+      res.words res.mats := by
   unfold freelyReducedElements at h
   obtain ⟨⟨res', memo'⟩, hr, h⟩ := bind_ok h
   cases h
-  have hperm := automatonAccepted_words_start ρ (freeAutomaton ρ.asymGens) L maxlen none []
+  have hperm := automatonAccepted_words_start ρ hp (freeAutomaton ρ.asymGens) L maxlen none []
     memo' true res' "" rfl (memoOK_nil _ _ _) hr
   refine ⟨hperm.nodup_iff.2 (free_startLang_nodup hok hs maxlen L), ?_, ?_⟩
   · intro s
     rw [hperm.mem_iff]
     exact free_startLang_mem hok hs maxlen L s
-  · intro hp
-    exact automatonAccepted_pairs ρ _ L maxlen none none [] memo' true res'
+  · exact automatonAccepted_pairs ρ _ L maxlen none none [] memo' true res' hp
       (labelOK_of_edgeWords ρ _ hp rfl) (memoOK_nil _ _ _) hr
 
 end Rep
